@@ -438,7 +438,8 @@ class Synth:
                 for f in e["fields"]:
                     t = f["target"]
                     if t["k"] == "builtin":
-                        ty = t["rust"]
+                        # an independent reader picks a carrier that holds the type's values: i64 for the unbounded integers
+                        ty = "i64" if f.get("xsd") in ("integer", "nonNegativeInteger", "positiveInteger", "nonPositiveInteger", "negativeInteger") else t["rust"]
                     elif t["k"] == "struct":
                         ty = self.ref_name(t["ns"], t["pascal"])
                     else:
@@ -505,6 +506,8 @@ pub fn fix(root: &str, plan: &str) -> Option<bool> {
             t = f["target"]
             if t["k"] == "builtin":
                 inner = self.tok[t["rust"]][tok]["lit"]
+                if f.get("xsd") in ("integer", "nonNegativeInteger", "positiveInteger", "nonPositiveInteger", "negativeInteger"):
+                    inner = f"({inner}) as i64"
             elif t["k"] == "struct":
                 ce = self.exp_struct(t["ns"], t["xml"])
                 inner = self.ref_value(ce, plan, depth + 1) if ce else "Default::default()"
